@@ -73,6 +73,7 @@ func cmdRun(args []string) {
 	gen := fs.Bool("gen", false, "generate Numscript shapes (and build the compiler helper)")
 	needHelper := fs.Bool("helper", false, "build the compiler helper")
 	quiet := fs.Bool("q", false, "only print jobs with findings")
+	summary := fs.Bool("s", false, "print an aggregated summary only")
 	tmo := fs.Int("timeout", 10000, "solver timeout per query, ms")
 	fallbacks := fs.String("fallbacks", "z3-new cvc5", "fallback solvers for unknown answers")
 	fs.Parse(args)
@@ -104,6 +105,43 @@ func cmdRun(args []string) {
 	}
 	ex := &interp.Explorer{In: in, Workers: *workers, SolverKind: *solver, TimeoutMs: *tmo, MaxPaths: *maxPaths, Fallbacks: strings.Fields(*fallbacks)}
 	res := ex.Run(jobs)
+	if *summary {
+		agg := map[string]int{}
+		paths := 0
+		for _, r := range res {
+			paths += r.Paths
+			for k, n := range r.Outcomes {
+				agg["outcome "+k] += n
+			}
+			for k, n := range r.Unsupported {
+				agg["unsupported: "+k] += n
+			}
+			for k, n := range r.Msgs {
+				agg["msg: "+k] += n
+			}
+			for _, v := range r.Violations {
+				agg[fmt.Sprintf("VIOL %s %q shapes:", v.Kind, v.Label)]++
+				agg[fmt.Sprintf("VIOL %s %q shape=%d e.g. %s", v.Kind, v.Label, r.Job.Shape, compactModel(v.Model))] = 1
+			}
+			for _, s := range r.Inconcl {
+				agg["inconclusive: "+s]++
+			}
+		}
+		var ks []string
+		for k := range agg {
+			ks = append(ks, k)
+		}
+		sort.Strings(ks)
+		for _, k := range ks {
+			x := k
+			if len(x) > 500 {
+				x = x[:500]
+			}
+			fmt.Printf("%6d  %s\n", agg[k], x)
+		}
+		fmt.Printf("jobs=%d paths=%d\n", len(res), paths)
+		res = nil
+	}
 	for _, r := range res {
 		if *quiet && len(r.Violations) == 0 && len(r.Unsupported) == 0 && len(r.Msgs) == 0 && len(r.Inconcl) == 0 {
 			continue
